@@ -1102,6 +1102,55 @@ def clause_read_merge(R, F, scans=("get_range", "all")):
         R.ob(okr, "READ-MERGE", fn.where(), "READ-MERGE|table.%s|unset-shadows" % meth,
              "%s: an uncommitted removal (cached history whose latest value is None) does not remove the persisted row from the scan result: "
              "the row reappears until the next commit" % meth, sample={"rule": "READ-MERGE scan", "fn": fn.name, "row": "latest()==None => remove(key)"})
+        if meth == "get_range":
+            # the scan is half open, `[start, end)`, for the persisted rows *and* for the cached ones: every comparison of a row's
+            # key with the end key is `key >= end` (stop / skip) or `key < end` (keep), with the start key `key < start` (skip) or
+            # `key >= start` (keep) - an inclusive end returns the first row of the next block while it is still uncommitted
+            n_cmp = 0
+            for g in [fn] + list(F.descendants(fn.id)):
+                for c in g.calls():
+                    if g.is_cleanup(c.bb) or (c.method or "") not in ("lt", "le", "gt", "ge") or len(c.args) != 2:
+                        continue
+                    a0, a1 = origin(g, c.args[0]), origin(g, c.args[1])
+                    import wire as _W2
+                    a0, a1 = _W2.resolve(F, g, a0), _W2.resolve(F, g, a1)
+                    def _uncap(t):
+                        # captured values are read in place; a field of a captured struct literal is that field's operand
+                        from terms import simplify as _simp
+                        if not isinstance(t, tuple) or not t:
+                            return t
+                        if t[0] == "captured":
+                            return _uncap(t[1])
+                        if t[0] == "field":
+                            b_ = _uncap(t[1])
+                            while b_[0] in ("ref", "deref", "cast") and b_[1][0] in ("agg", "ref", "deref", "cast"):
+                                b_ = b_[1]
+                            return _simp(("field", b_, t[2]))
+                        if t[0] in ("ref", "deref", "cast"):
+                            return (t[0], _uncap(t[1])) + tuple(t[2:])
+                        if t[0] == "call":
+                            return ("call", t[1], tuple(_uncap(a) for a in t[2]), t[3], t[4])
+                        return t
+                    a0, a1 = _uncap(a0), _uncap(a1)
+
+                    def _is_bound(t, name):
+                        # the encoded bound itself (`end_key.encode_vec()` behind references / views), not a row key that merely
+                        # comes from an iterator positioned at it
+                        from terms import leaves as _leaves
+                        ps = {l_[1] for l_ in _leaves(t) if l_[0] == "param"}
+                        cs = {x[1].split("::")[-1] for x in calls_in(t)}
+                        return ps == {name} and cs <= {"encode_vec", "deref", "as_slice", "as_ref", "clone", "to_vec", "borrow"}
+                    for bound, ok_fwd, ok_rev in (("end_key", ("ge", "lt"), ("le", "gt")), ("start_key", ("lt", "ge"), ("gt", "le"))):
+                        if _is_bound(a1, bound) and not _is_bound(a0, bound):
+                            n_cmp += 1
+                            R.ob(c.method in ok_fwd, "READ-MERGE", c.where(), "READ-MERGE|table.get_range|half-open:%s" % bound,
+                                 "get_range compares a row's key with the %s by `%s`: the scan is [start, end) for every source of rows" % (bound.replace("_key", " key"), c.method),
+                                 sample={"rule": "READ-MERGE bounds", "bound": bound, "comparison": "key %s %s" % (c.method, bound)})
+                        elif _is_bound(a0, bound) and not _is_bound(a1, bound):
+                            n_cmp += 1
+                            R.ob(c.method in ok_rev, "READ-MERGE", c.where(), "READ-MERGE|table.get_range|half-open:%s" % bound,
+                                 "get_range compares the %s with a row's key by `%s`: the scan is [start, end) for every source of rows" % (bound.replace("_key", " key"), c.method))
+            R.floor("get_range_bound_comparisons", n_cmp, 3)
         if meth == "get_range" and disk:
             a = show(origin(fn, disk[0].args[1]))
             R.ob("From" in a and "Forward" in a and mentions(origin(fn, disk[0].args[1]), "start_key"), "WIRE", disk[0].where(),
@@ -1203,7 +1252,41 @@ def clause_blockdb_commit(R, F):
             R.ob(not fn.sdominates(f.bb, p.bb), "DOM-order", f.where(), "DOM-order|blockdb.commit|put<flush", "flush precedes the puts")
 
 
+def clause_cache_insert_sites(R, F):
+    """An in-memory history is newer than (or equal to) the persisted one, so nothing may replace it: every `insert` into the
+    versioned table's `cache` map sits where the key is known to be absent (behind `!contains_key`, through a vacant entry), in
+    whichever method it is written - not only in the one loader"""
+    from terms import reachable_without_edges
+    tn = _tt(F, "BlockCachedDatabase")
+    n = 0
+    for f0 in F.fns.values():
+        if f0.kind != "method" or not (f0.j.get("self_ty") or "").startswith(tn.split("<")[0]) or f0.j.get("trait") or not f0.blocks:
+            continue
+        from facts import is_private_helper
+        if is_private_helper(f0):
+            continue            # read in its callers
+        fn = F.inlined(f0)
+        ins = [c for c in fn.calls() if (c.method or "") == "insert" and recv_field(fn, c) == "cache" and not fn.is_cleanup(c.bb)]
+        cks = [c for c in fn.calls() if (c.method or "") == "contains_key" and recv_field(fn, c) == "cache" and not fn.is_cleanup(c.bb)]
+        for c in ins:
+            n += 1
+            ok = "VacantEntry" in (c.target_path or "") + (c.self_ty or "")
+            for ck in cks:
+                if ok:
+                    break
+                sw = fn.succ(ck.bb)[0]
+                removed = [(sw, s_) for s_ in fn.succ(sw) if (bool_edge(fn, sw, s_) or (None, None))[1] is False]
+                if removed and c.bb not in reachable_without_edges(fn, removed):
+                    ok = True
+            R.ob(ok, "GUARD", c.where(), "GUARD|table.cache-insert|%s" % f0.j.get("method"),
+                 "%s puts a history into the in-memory cache without knowing the key is absent: a newer uncommitted history can be "
+                 "replaced by the persisted (older) one" % f0.j.get("method"),
+                 sample={"rule": "GUARD", "fn": f0.j.get("method"), "cache.insert": "only for an absent key"})
+    R.floor("cache_insert_sites", n, 1)
+
+
 def clause_retrieve_cache(R, F):
+    clause_cache_insert_sites(R, F)
     fn = _tfn(F, _tt(F, "BlockCachedDatabase"), "retrieve_cache")
     ins = [c for c in fn.calls() if (c.method or "") == "insert" and recv_field(fn, c) == "cache" and not fn.is_cleanup(c.bb)]
     ck = [c for c in fn.calls() if (c.method or "") == "contains_key" and recv_field(fn, c) == "cache" and not fn.is_cleanup(c.bb)]
